@@ -580,7 +580,8 @@ BarrierPass == /\ IsEvent("BarrierPass") /\ Held = {}
 \* concurrency stays work conserving while a reply is on its way out (C06; C03 for what waits behind nothing but a slot).
 QuiescentOp ==
   /\ IsEvent("QuiescentOp")
-  /\ ("C06" \in Enforce \/ "C03" \in Enforce) =>
+  \* (judged for a Send in progress on a connection nothing has begun to end: a stop under way cancels what waits)
+  /\ (("C06" \in Enforce \/ "C03" \in Enforce) /\ Ev.op = "vchan.insend" /\ ~stopped /\ pend = {} /\ ~rdDone) =>
         ~(\E t \in DOMAIN mem : Startable(t) /\ Cardinality(running) < conc)
   /\ UNCHANGED <<conc, push, mem, units, rq, used, running, stopped, pend, causes, cancelOK, hcanc, cbs, notes, waitRet, rdDone, sendBad, stopOpen>>
 
